@@ -106,7 +106,7 @@ fn main() {
     // The regex the threads share is NOT touched before they start: whatever it builds lazily is
     // built under concurrency. The reference results come from a second, fresh regex (below).
     let n_threads = 3;
-    let ops_per_thread = 2;
+    let ops_per_thread = 4;
     let solo_of = |fresh: &Regex, t: usize| -> Vec<String> {
         (0..ops_per_thread).map(|k| op(fresh, kind_of(t, k, which), texts[(t + k) % texts.len()])).collect()
     };
